@@ -34,8 +34,8 @@ class Gen(FnSpec):
         self.loops = {
             1: LoopSpec("os.walk(dest_dir_path)" if which == "moved" else "os.walk(src_dir_path)", self.inv_outer, modifies=[("ghost", "cur"), ("ghost", "blocks")],
                         ghost_start=self.g_start, ghost_end=self.g_end),
-            2: LoopSpec("directories", self.inv_dirs, modifies=g, ghost_start=lambda ex, i: self.reveal(ex, i, True)),
-            3: LoopSpec("filenames", self.inv_files, modifies=g, ghost_start=lambda ex, i: self.reveal(ex, i, False)),
+            2: LoopSpec("directories", self.inv_dirs, modifies=g, ghost_start=lambda ex, i, el=None: self.reveal(ex, i, True)),
+            3: LoopSpec("filenames", self.inv_files, modifies=g, ghost_start=lambda ex, i, el=None: self.reveal(ex, i, False)),
         }
 
     # ---------------- environment contracts
@@ -126,11 +126,11 @@ class Gen(FnSpec):
         return [("one-block-per-walked-directory", bl.n == k),
                 ("blocks-as-dictated", z3.ForAll([j], z3.Implies(z3.And(j >= 0, j < k), self.block_ok(W.LEv.wrap(bl.arr[j]), j))))]
 
-    def g_start(self, ex, k):
+    def g_start(self, ex, k, el=None):
         self.k = k
         ex.ghost["cur"] = self.W.LEv.empty()
 
-    def g_end(self, ex, k):
+    def g_end(self, ex, k, el=None):
         bl, cur = ex.ghost["blocks"], ex.ghost["cur"]
         ex.ghost["blocks"] = VList(bl.n + 1, z3.Store(bl.arr, bl.n, self.W.LEv.unwrap(cur)), bl.ety)
 
